@@ -32,7 +32,7 @@ MUTS = {
     'c16-no-fwc-clip': ('C16', 'prysm/detector.py', '        input_to_adc[input_to_adc > self.fwc] = self.fwc\n', ''),
     'c16-cast-lt-8': ('C16', 'prysm/detector.py', 'if self.bits <= 8:', 'if self.bits < 8:'),
     'c16-bias-dropped': ('C16', 'prysm/detector.py', 'input_to_adc = (shot_noise + read_noise + self.bias)', 'input_to_adc = (shot_noise + read_noise)'),
-    'c16-no-squeeze': ('C16', 'prysm/detector.py', 'if frames == 1:\n            output = output[0, :, :]', 'if frames == 0:\n            output = output[0, :, :]'),
+    'c16-no-squeeze': ('C16', 'prysm/detector.py', 'if frames == 1:\n            output = output[0]', 'if frames == 0:\n            output = output[0]'),
     'c16-bin-reduce-even-axes': ('C16', 'prysm/detector.py', 'reduction_axes = tuple(range(1, 2*array.ndim, 2))', 'reduction_axes = tuple(range(0, 2*array.ndim, 2))'),
     'c16-tile-sum-unscaled': ('C16', 'prysm/detector.py', '        sf = 1 / sf\n', '        sf = sf\n'),
     'c16-bin-shape-swapped-interleave': ('C16', 'prysm/detector.py', 'output_shape = tuple(itertools.chain(*zip(output_shape, factor)))',
@@ -52,7 +52,7 @@ MUTS = {
                              "        output[top_left] = r\n        output[top_right] = g2\n        output[bottom_left] = g1"),
 }
 
-REVERTS = {'c16-revert-wbpost': ('C16', 'c5df7fb'), 'c15-revert-31': ('C15', 'a4203e4'), 'c15-revert-grid-fix': ('C15', '4a350a1'), 'c16-revert-32': ('C16', '7af76dc'), 'c16-revert-prnu': ('C16', 'd1e2c67')}
+REVERTS = {'c15-revert-31': ('C15', 'a4203e4'), 'c15-revert-grid-fix': ('C15', 'cd4bf3a'), 'c15-revert-2d-grids': ('C15', '07ebda6'), 'c16-revert-32': ('C16', '214bfcb'), 'c16-revert-prnu': ('C16', '37f6004'), 'c16-revert-wbpost': ('C16', '725cdcd'), 'c16-revert-cfa-case': ('C16', 'cc68984'), 'c16-revert-squeeze': ('C16', '91edc40')}
 
 
 def sh(cmd, **kw):
